@@ -14,20 +14,27 @@ import (
 type combo struct {
 	Src     string // same | trim-past | trim-before | failover-late | failover-early | newid
 	Cache   string // empty | natural | log-only | other-id | cur-id
-	Pid     string // absent | id1 | cur | unknown
+	Pid     string // absent (position and checkpoint-hash entry gone) | nofields (position fields gone, hash entry kept) | id1 | cur | unknown
 	Prel    string // na | at-right | inside | before-left | beyond-right   (position relative to the cached range)
 	Backend string // disk | mem
-	Restart string // restart (Stop + fresh instance, start-up bookkeeping) | inloop (connection lost, the tool's own retry loop)
+	// restart (Stop + fresh instance, start-up bookkeeping) | inloop (connection lost, the tool's own retry loop) |
+	// cut (first session stopped between the snapshot replay's DelCheckpoint and SetCheckpoint, then restart)
+	Restart string
+	Drop    bool // the first replica connection of the judged reconnect is cut by the source after some payload bytes
 }
 
 func (c combo) Label() string {
-	return fmt.Sprintf("src=%s|cache=%s|pid=%s|prel=%s|%s|%s", c.Src, c.Cache, c.Pid, c.Prel, c.Backend, c.Restart)
+	l := fmt.Sprintf("src=%s|cache=%s|pid=%s|prel=%s|%s|%s", c.Src, c.Cache, c.Pid, c.Prel, c.Backend, c.Restart)
+	if c.Drop {
+		l += "|drop"
+	}
+	return l
 }
 
 var (
 	allSrc   = []string{"same", "trim-past", "trim-before", "failover-late", "failover-early", "newid"}
 	allCache = []string{"empty", "natural", "log-only", "other-id", "cur-id"}
-	allPid   = []string{"absent", "id1", "cur", "unknown"}
+	allPid   = []string{"absent", "nofields", "id1", "cur", "unknown"}
 	allPrel  = []string{"at-right", "inside", "before-left", "beyond-right"}
 )
 
@@ -39,6 +46,12 @@ func enumerate() []combo {
 	for _, be := range []string{"disk", "mem"} {
 		for _, src := range allSrc {
 			out = append(out, combo{Src: src, Cache: "natural", Pid: "id1", Prel: "at-right", Backend: be, Restart: "inloop"})
+			out = append(out, combo{Src: src, Cache: "natural", Pid: "id1", Prel: "at-right", Backend: be, Restart: "inloop", Drop: true})
+			out = append(out, combo{Src: src, Cache: "natural", Pid: "id1", Prel: "at-right", Backend: be, Restart: "restart", Drop: true})
+			if src == "same" || src == "trim-before" || src == "failover-late" {
+				// the snapshot is cached and replayed, the tool stops before its position is stored
+				out = append(out, combo{Src: src, Cache: "natural", Pid: "absent", Prel: "na", Backend: be, Restart: "cut"})
+			}
 			for _, ca := range allCache {
 				if ca == "cur-id" && !newIDSrc(src) {
 					continue // the current id is the first session's id: same as natural / log-only
@@ -48,7 +61,7 @@ func enumerate() []combo {
 						continue
 					}
 					prels := allPrel
-					if pid == "absent" || ca == "empty" {
+					if pid == "absent" || pid == "nofields" || ca == "empty" {
 						prels = []string{"na"}
 					} else if ca == "other-id" {
 						prels = []string{"inside", "beyond-right"}
@@ -74,11 +87,12 @@ type cacheSpec struct {
 }
 
 type cpSpec struct {
-	Absent  bool
-	Natural bool
-	ID      string
-	Off     int64
-	DB      int
+	Absent   bool
+	KeepHash bool // absent: only the position fields are gone, the run id → checkpoint-name entry stays
+	Natural  bool
+	ID       string
+	Off      int64
+	DB       int
 }
 
 type plan struct {
@@ -104,6 +118,7 @@ type plan struct {
 	CP    cpSpec
 	Cache cacheSpec
 
+	DropAfter   int64 // >0: the source cuts the first replica connection of the reconnect after that many payload bytes
 	Constructed []string
 	Behind      bool // failover: the new master has produced less than the stored position when the tool reconnects
 	Aligned     bool // failover: a command boundary of the new history falls on the stored position's number
@@ -344,9 +359,14 @@ func buildPlan(r *rand.Rand, c combo) (*plan, error) {
 		havePos = true
 	}
 	switch {
+	case c.Pid == "absent" && c.Restart == "cut":
+		p.CP = cpSpec{Absent: true, KeepHash: true, Natural: true}
 	case c.Pid == "absent":
 		p.CP = cpSpec{Absent: true}
 		p.Constructed = append(p.Constructed, "checkpoint-removed")
+	case c.Pid == "nofields":
+		p.CP = cpSpec{Absent: true, KeepHash: true}
+		p.Constructed = append(p.Constructed, "checkpoint-fields-removed")
 	case c.Pid == "id1" && p.CP.Off == P1:
 		p.CP.Natural = true
 	default:
@@ -441,6 +461,10 @@ func buildPlan(r *rand.Rand, c combo) (*plan, error) {
 	if c.Restart == "inloop" {
 		p.Constructed = nil
 	}
+	if c.Drop {
+		// somewhere inside the snapshot when one is served, else inside the first stream bytes
+		p.DropAfter = int64(1 + r.Intn(len(p.S2.RDB)-1))
+	}
 	p.FreshDisk = c.Backend == "disk" && r.Intn(2) == 0
 	return p, nil
 }
@@ -464,6 +488,12 @@ func (p *plan) sourceConfig(stamp func() int64) fakeredis.SourceConfig {
 // posClass names the class of the stored position as the property's quantifier does.
 func (p *plan) posClass(id string, off int64, absent bool) string {
 	if absent {
+		if p.CP.KeepHash && p.C.Restart == "cut" {
+			return "absent(stopped-before-setcheckpoint)"
+		}
+		if p.CP.KeepHash {
+			return "absent(hash-entry-kept)"
+		}
 		return "absent"
 	}
 	switch {
